@@ -394,7 +394,7 @@ def body(case):
 
 def plan(tier):
     if tier == "quick":
-        return [{"name": "links%d" % i, "n": 40, "depth": 2} for i in range(16)]
+        return [{"name": "links%d" % i, "n": 110, "depth": 2} for i in range(16)]
     return [{"name": "links%d" % i, "n": 1500, "depth": 3} for i in range(16)]
 
 
